@@ -118,6 +118,11 @@ func (c *Ctx) atomLabel(a Atom) string {
 
 func calleeShort(cl *ssa.Call) string {
 	if cal := calleeOf(&cl.Call); cal != nil {
+		if curProg != nil {
+			if role, ok := curProg.roleOf[cal]; ok {
+				return role // the implementation behind a recorded role (wrapper, memo, rename) keeps the role's name in facts
+			}
+		}
 		return cal.Name()
 	}
 	n := calleeFullName(&cl.Call)
